@@ -22,15 +22,16 @@ def obs_int(case):
     t, v = case["t"], int(case["v"])
     ev = {"kind": "int", "t": t, "w": int(t[1:4]), "signed": 1 if t[0] == "I" else 0, "neg": 1 if v < 0 else 0, "mag": limbs(v),
           "out": "", "bytes": [], "backout": "", "backneg": 0, "backmag": []}
+    kwform = v % 2 == 1  # (every other call names its parameters, as the documentation does)
     try:
-        b = val2bytes(v, t)
+        b = val2bytes(val=v, att=t) if kwform else val2bytes(v, t)
         ev["out"] = "ok"
         ev["bytes"] = list(b) if isinstance(b, (bytes, bytearray)) else BAD
     except Exception:  # noqa: BLE001 - "values outside the range are refused": any exception is a refusal
         ev["out"] = "refused"
         return ev
     try:
-        back = bytes2val(bytes(b), t)
+        back = bytes2val(valb=bytes(b), att=t) if kwform else bytes2val(bytes(b), t)
         ev["backout"] = "ok" if type(back) is int else "notint"
         if type(back) is int:
             ev["backneg"] = 1 if back < 0 else 0
@@ -146,7 +147,7 @@ def obs_ck(case):
     from pyubx2 import calc_checksum, isvalid_checksum
 
     d = bytes.fromhex(case["d"])
-    ck = calc_checksum(d)
+    ck = calc_checksum(content=d) if len(d) % 2 else calc_checksum(d)
     good = b"\xb5\x62" + d + ck
     bad = good[:-1] + bytes((good[-1] ^ (1 + case.get("flip", 0) % 255),))
     return {"kind": "ck", "data": list(d), "ck": list(ck), "validgood": 1 if isvalid_checksum(good) else 0, "validbad": 1 if isvalid_checksum(bad) else 0}
@@ -179,7 +180,8 @@ def obs_bits(case):
     from pyubx2 import get_bits
 
     bf = bytes.fromhex(case["bf"])
-    return {"kind": "bits", "bf": list(bf), "mask": case["mask"], "out": int(get_bits(bf, case["mask"]))}
+    out = get_bits(bitfield=bf, bitmask=case["mask"]) if case["mask"] % 2 else get_bits(bf, case["mask"])
+    return {"kind": "bits", "bf": list(bf), "mask": case["mask"], "out": int(out)}
 
 
 def obs_prot(case):
@@ -190,15 +192,18 @@ def obs_prot(case):
     # one event per byte pair; packed 256 per case to keep the driver cheap
     # the protocol is a function of the two header bytes: whatever follows them (nothing, zeros, text with non-ASCII bytes, a line end)
     tails = (b"\x00\x00", b"", b"TXT,01,01,02,Antenna temp 25\xb0C*8B\r\n", b"\xff\xfe\xb5\x62", b"\r\n")
-    return [{"kind": "prot", "b1": b1, "b2": b2, "out": int(protocol(bytes((b1, b2)) + tails[(b1 + b2) % len(tails)]))} for b2 in range(256)]
+    return [{"kind": "prot", "b1": b1, "b2": b2, "out": int(protocol(raw=bytes((b1, b2)) + tails[(b1 + b2) % len(tails)]) if b2 % 2 else protocol(bytes((b1, b2)) + tails[(b1 + b2) % len(tails)]))} for b2 in range(256)]
 
 
 def obs_att(case):
     from pyubx2 import att2idx, att2name
 
     name = case["name"]
-    idx = att2idx(name)
-    return {"kind": "att", "base": case["base"], "i": case["i"], "j": case["j"], "more": list(case.get("more", ())), "name": name, "outname": att2name(name),
+    # (every other call names the parameter, as the documentation does: att2idx(att=...), att2name(att=...))
+    kwform = (case["i"] + case["j"]) % 2 == 1
+    idx = att2idx(att=name) if kwform else att2idx(name)
+    return {"kind": "att", "base": case["base"], "i": case["i"], "j": case["j"], "more": list(case.get("more", ())), "name": name,
+            "outname": att2name(att=name) if kwform else att2name(name),
             "outidx": [idx] if isinstance(idx, int) else list(idx)}
 
 
